@@ -4,6 +4,7 @@ CONSTANTS
   MaxExtra = 3
   AttrModes <- ModesThorough
   VarNone = TRUE
+  ReqVersions <- ReqThorough
 INVARIANT Explained
 INVARIANT TrimInv
 CHECK_DEADLOCK FALSE
